@@ -56,7 +56,10 @@ def meta(tier):
           "continue/break/if/for/while/with/comprehension, one of 6 wrappers incl. try/except, try/finally, "
           "try/except/else/finally, with, nested try; optionally inside a loop) are compiled by CPython (set-up, "
           "untraced) and every code object goes through the same real functions and the same block-graph checks plus "
-          "link and jump-resolution checks. Structural inputs: solver-certified exhaustive walk."),
+          "link and jump-resolution checks. real-split-try: the same over a second statement list whose try bodies the "
+          "compiler cuts into several exception-table entries on one line (inlined comprehensions, loops with break, "
+          "return, nested try/finally); on real compiler output a 'POP_BLOCK without block' assertion is a failure. "
+          "Structural inputs: solver-certified exhaustive walk."),
       "functions_encoded": [
           "pytype/pyc/opcodes.py: build_opcodes, _make_opcodes, _add_setup_except, _add_exception_block, _get_exception_bitmask, _make_opcode_list, _should_elide_opcode, _add_jump_targets, _add_async_for_jump_back_targets",
           "pytype/blocks/blocks.py: add_pop_block_targets, _split_bytecode, _remove_jump_back_block, _remove_jmp_to_get_anext_and_merge, compute_order, Block",
@@ -67,7 +70,7 @@ def meta(tier):
       "rule": "one record per completed path keyed by the adjacency bits / the instruction list and exception table; non-trivial: graph = at least 2 edges, code = has a jump or an exception entry",
       "assumptions": [
           "compiler guarantees assumed: the last instruction does not fall through; a handler follows its protected range; a range that gets a block ends strictly before the last instruction; jumps target instruction starts; exception-table entries are disjoint and sorted by start",
-          "inputs on which add_pop_block_targets asserts 'POP_BLOCK without block' are not block-structured and are skipped",
+          "synthetic inputs on which add_pop_block_targets asserts 'POP_BLOCK without block' are not block-structured and are skipped (on real compiler output the assertion is a failure)",
           "CrossHair contract-enforcement tracer disabled",
       ],
       "trusted_base": ["pycnite.types dataclasses", "CrossHair 0.0.110", "z3"],
